@@ -57,6 +57,9 @@ pub enum ReadMode {
     Lazy,
     /// never touch the payload
     Abandon,
+    /// take the payload out of the message and read it chunk by chunk in a separate task that
+    /// outlives the handler
+    Detached,
 }
 
 #[derive(Debug, Clone)]
@@ -147,6 +150,8 @@ pub enum Ev {
     CtlDropped { call: u32 },
     SinkCall { op: u32, n: u32, what: String },
     SinkRet { op: u32, n: u32, res: SinkRes },
+    /// the publish-ack callback (`publish_ack_cb`) was invoked
+    AckCb { pid: u16, disconnected: bool },
     /// the connection task (server service call / client dispatcher) completed
     ConnDone(String),
     Note(String),
@@ -298,6 +303,11 @@ impl App {
         self.log.borrow().len()
     }
 
+    /// read mode of the plan the next publish handler will take
+    pub fn peek_pub_read(&self) -> ReadMode {
+        self.pub_plans.borrow().front().map(|p| p.read.clone()).unwrap_or_else(|| self.pub_default.borrow().read.clone())
+    }
+
     pub fn take_pub_plan(&self) -> PubPlan {
         self.pub_plans.borrow_mut().pop_front().unwrap_or_else(|| self.pub_default.borrow().clone())
     }
@@ -414,6 +424,7 @@ impl App {
                 Ev::CtlDropped { .. } => "CD".into(),
                 Ev::SinkCall { what, .. } => format!("SC{}", what.split(' ').next().unwrap_or("")),
                 Ev::SinkRet { res, .. } => format!("SR{}", format!("{res:?}").split(['(', '{', ' ']).next().unwrap_or("")),
+                Ev::AckCb { disconnected, .. } => format!("CB{disconnected}"),
                 Ev::ConnDone(_) => "DONE".into(),
                 Ev::WireGarbage(_) => "GARBAGE".into(),
                 Ev::HandshakeEnter => "HE".into(),
